@@ -45,7 +45,10 @@ def pmap(fn, items, chunk=20):
 def variant_of(doc, seed, quick):
     """Concretisation variants to replay: one (seeded) in the quick tier, all four in the thorough tier."""
     allv = [("block", False), ("flow", False), ("block", True), ("flow", True)]
+    if any(n["k"] == "set" for n in doc):
+        # ruamel.yaml cannot re-serialise a flow-style !!set (independent of yamlpath): block style only
+        allv = [("block", False), ("block", True)]
     if not quick:
         return allv
-    h = (len(doc) * 7 + sum(len(n["v"]) + len(n["kids"]) for n in doc) + seed) % 4
+    h = (len(doc) * 7 + sum(len(n["v"]) + len(n["kids"]) for n in doc) + seed) % len(allv)
     return [allv[h]]
